@@ -10,6 +10,12 @@ The code and the model are compared on ROBUST configurations only: the model dec
 facet inequality tightened / relaxed by tau = 1e-6 · scale · max(1, max‖w‖); "covered with +tau" must be
 answered True by the code, "not covered even with −tau" must be answered False.  Everything in
 between is `borderline` (counted, not compared); `inconclusive` model answers are counted.
+Rectangle and ball verdicts are *decisions* (`rect_isCovered_iff`, `rect_band_iff`, `ball_band_iff` in
+`Props/C10.lean`: Fourier–Motzkin and the active-set search are complete): an `inconclusive` answer of
+`rect` / `ball` on a well-formed case is reported as (F) `model-rect-inconclusive` /
+`model-ball-inconclusive`.  How often the fast (Kohler-pruned) search alone gives no accepted certificate
+is counted (`rect_fast_inconclusive_info`, expected 0); on a sample of small cases the complete fallback
+(`rectfm`, `feasiblefm`) is run as well and must agree with the fast path.
 For ellipsoids the code's procedure includes a fallback to SCS (eps ≈ 1e-4) and maps undecided solver
 statuses to True, so a wrong answer there is a violation only if the configuration is still robust
 with the margin 1e-3 · scale · max(1, max‖w‖); below that it is counted as
@@ -646,6 +652,25 @@ def _run_rect(ctx, case):
     vs = ans.split(",")
     if len(vs) != 3:
         raise RuntimeError(f"driver answered {ans!r}")
+    wellformed = all(len(r) == m for r in W) and all(len(case[k]) == m for k in ("l1", "u1", "l2", "u2"))
+    # totality (rect_isCovered_iff / rect_band_iff): never inconclusive on a well-formed case
+    if wellformed and "inconclusive" in vs:
+        ctx.violation("model-rect-inconclusive", "the rectangle verdict is `inconclusive` on a well-formed case "
+                      "(contradicts rect_isCovered_iff / rect_band_iff)", case, kind="F", detail={"verdicts": vs})
+    fast = ctx.ask("rectfast", *args, core.q(tau)).split(",")
+    if "inconclusive" in fast:
+        ctx.count("rect_fast_inconclusive_info")
+    elif fast != vs:
+        ctx.violation("model-rect-fast-vs-final", "rectVerdict differs from a conclusive rectVerdictFast", case,
+                      kind="F", detail={"fast": fast, "final": vs})
+    if m <= 2 and len(W) <= 3 and hash_bit(case) == 0:
+        # the complete fallback (plain Fourier–Motzkin on the full 2m-variable LP) on its own
+        fm = ctx.ask("rectfm", *args, "0")
+        ctx.count("rect_fallback_crosscheck")
+        if fm != vs[1]:
+            ctx.violation("model-rect-fallback-vs-fast", "the complete search (feasibleFM on rectSys) and the fast "
+                          "path disagree or the complete search is inconclusive", case, kind="F",
+                          detail={"fallback": fm, "verdict": vs[1]})
     # independent re-check of the raw certificates of the search (t = 0)
     raw = ctx.ask("rectcert", *args, "0")
     chk = _py_recheck_rect(case, raw, 0.0)
@@ -691,6 +716,10 @@ def _run_ball(ctx, case):
     vs = ans.split(",")
     if len(vs) != 3:
         raise RuntimeError(f"driver answered {ans!r}")
+    # totality (ball_band_iff): never inconclusive when the guard holds
+    if "inconclusive" in vs and a1 >= 0 and a2 >= 0 and len(c1) == len(c2) == m and all(len(r) == m for r in W):
+        ctx.violation("model-ball-inconclusive", "the ball verdict is `inconclusive` although the guard holds "
+                      "(contradicts ball_band_iff)", case, kind="F", detail={"verdicts": vs})
     wide = ctx.ask("ball", core.qmat(W), core.qvec(c1), core.q(a1), core.qvec(c2), core.q(a2), core.qvec(sv),
                    core.q(tau * TAU_SCS / TAU)).split(",")
     nt = _compare(ctx, case, out, *vs, "ball", wide=lambda: wide)
@@ -848,6 +877,18 @@ def _run_lp(ctx, case):
                   bounds=[(-1e3, 1e3)] * n + [(None, 1.0)], method="highs")
     ans = ctx.ask("feasible", str(n), core.qmat(A), core.qvec(b))
     ctx.count("lp_feasible_" + ans)
+    # the complete search (plain Fourier–Motzkin): never inconclusive (feasibleFM_complete), same answer
+    fm = ctx.ask("feasiblefm", str(n), core.qmat(A), core.qvec(b))
+    ctx.count("lp_feasiblefm_" + fm)
+    if fm not in ("0", "1"):
+        ctx.violation("model-fm-incomplete", "plain Fourier–Motzkin gave no accepted certificate on a well-formed "
+                      "system (contradicts feasible_complete)", case, kind="F", detail={"feasiblefm": fm})
+    elif ans in ("0", "1") and fm != ans:
+        ctx.violation("model-fm-vs-fast", "the pruned and the plain Fourier–Motzkin searches certify opposite "
+                      "answers", case, kind="F", detail={"feasible": ans, "feasiblefm": fm})
+    if ans not in ("0", "1"):
+        ctx.count("lp_fast_inconclusive_info")
+        ans = fm
     if res.status == 0:
         mu = -res.fun
         if (mu > 1e-6 and ans == "0") or (mu < -1e-6 and ans == "1"):
@@ -858,6 +899,10 @@ def _run_lp(ctx, case):
         # nearest point of the polyhedron to c: checked KKT pair vs a numeric solve
         zeros = ",".join(["0"] * n)
         pr = ctx.ask("ballproj", core.qmat(A), zeros, core.qvec(c), core.qvec(b))
+        if "|" not in pr:
+            ctx.violation("model-nearest-incomplete", "the active-set search found no accepted KKT point on a "
+                          "certified non-empty polyhedron (contradicts nearest_complete)", case, kind="F",
+                          detail={"ballproj": pr})
         if "|" in pr:
             x = np.array([float(v) for v in core.parse_qvec(pr.split("|")[0])])
             lam = pr.split("|")[1]
